@@ -28,8 +28,8 @@ Plain(p, t) == [pat |-> p, m |-> {}, h |-> {}, q |-> {}, s |-> {}, typ |-> t]
 
 FlowsA == {Plain(p, "user") : p \in PatternsA}
 
-UrlsA == UrlsOver({HostH, <<"g", "com">>}, {"a", "b", "c"}, MaxPath + 1)
-    \cup UrlsOver({<<"h", "com", "x">>, <<"h">>}, {"a"}, 1)
+UrlsA == UrlsOver({HostH}, {"a", "b", "c"}, MaxPath + 1)
+    \cup UrlsOver({<<"g", "com">>, <<"h", "com", "x">>, <<"h">>}, {"a"}, 1)
 
 Req(u, meth, hdr, qry) == [side |-> "req", url |-> u, method |-> meth, hdr |-> hdr, qry |-> qry, status |-> 0]
 Resp(u, meth, st)      == [side |-> "resp", url |-> u, method |-> meth, hdr |-> {}, qry |-> {}, status |-> st]
@@ -52,9 +52,10 @@ FlowsB == {[pat |-> p, m |-> m, h |-> h, q |-> q, s |-> s, typ |-> t] :
 FlowsB1 == {f \in FlowsB : Cardinality({k \in {"m", "h", "q", "s"} : ~OwnEmpty(k, f)}) <= 1}
 
 UrlsB == {Mk(HostH, <<"a">>), Mk(HostH, <<"a", "b">>), Mk(HostH, <<"c">>)}
-TxnsB == {Req(u, meth, hdr, qry) : u \in UrlsB, meth \in {"GET", "POST", "HEAD"},
-                                   hdr \in {{}, {<<"x-key", "v1">>}, {<<"x-key", "V2">>}, {<<"x-key", "zz">>}},
-                                   qry \in {{}, {<<"k", "1">>}, {<<"k", "2">>}}}
+\* one dimension at a time: header variants with an empty query, query variants with no header
+HdrQryB == {<<hdr, {}>> : hdr \in {{}, {<<"x-key", "v1">>}, {<<"x-key", "V2">>}, {<<"x-key", "zz">>}}}
+      \cup {<<{}, qry>> : qry \in {{<<"k", "1">>}, {<<"k", "2">>}}}
+TxnsB == {Req(u, meth, hq[1], hq[2]) : u \in UrlsB, meth \in {"GET", "POST", "HEAD"}, hq \in HdrQryB}
     \cup {Resp(u, meth, st) : u \in UrlsB, meth \in {"GET", "POST", "HEAD"}, st \in {200, 500}}
 
 \* the fast matching operators of FilterP agree with the shared UrlPattern module
